@@ -132,6 +132,43 @@ func run(c Case, o *vt.Obs) *vt.Failure {
 	// lag: a replica that misses every third update (a lagging follower); it is brought up to date only by installing snapshots
 	lag := newLFSM()
 	lagMissed := 0
+	// d: a replica fed the same updates whose snapshots are SAVED LATE - prepared at a "snapshot" step, saved only at the next one (or at
+	// the end), after further updates were applied (the store is a concurrent state machine: raft saves in the background while it keeps
+	// applying).  The image must be the state at prepare time.
+	d := newLFSM()
+	var pendCtx any
+	var pendExpect map[string]kv.Pair
+	pendUpdates := 0
+	lateSaves := 0
+	saveLate := func(step int) *vt.Failure {
+		if pendCtx == nil {
+			return nil
+		}
+		var buf bytes.Buffer
+		if err := d.SaveSnapshot(pendCtx, &buf, nil, nil); err != nil {
+			return vt.Failf(prop+"/snapshot-error", step, "late save: %v", err)
+		}
+		pendCtx = nil
+		n := newLFSM()
+		if err := n.RecoverFromSnapshot(bytes.NewReader(buf.Bytes()), nil, nil); err != nil {
+			return vt.Failf(prop+"/restore-error", step, "restore of a late-saved snapshot: %v", err)
+		}
+		sn, err := snapshotBytes(n)
+		var got map[string]kv.Pair
+		if err == nil {
+			err = json.Unmarshal(sn, &got)
+		}
+		if got == nil {
+			got = map[string]kv.Pair{}
+		}
+		if err != nil || !reflect.DeepEqual(got, pendExpect) {
+			return vt.Failf(prop+"/snapshot-not-point-in-time", step, "a snapshot prepared before %d further updates and saved after them restores to %v, the store held %v when it was prepared (err %v)", pendUpdates, got, pendExpect, err)
+		}
+		if pendUpdates > 0 {
+			lateSaves++
+		}
+		return nil
+	}
 	model := map[string]mpair{}
 	index := uint64(0)
 	maxVer := uint64(0)
@@ -185,6 +222,10 @@ func run(c Case, o *vt.Obs) *vt.Failure {
 				return vt.Failf(prop+"/update-error", i, "%v", err)
 			}
 			resultsA = append(resultsA, res[0].Result)
+			if _, err := d.Update([]sm.Entry{{Index: index, Cmd: append([]byte(nil), cmd...)}}); err != nil {
+				return vt.Failf(prop+"/update-error", i, "replica D: %v", err)
+			}
+			pendUpdates++
 			if index%3 != 0 {
 				if _, err := lag.Update([]sm.Entry{{Index: index, Cmd: append([]byte(nil), cmd...)}}); err != nil {
 					return vt.Failf(prop+"/update-error", i, "lagging replica: %v", err)
@@ -316,6 +357,14 @@ func run(c Case, o *vt.Obs) *vt.Failure {
 			if !bytes.Equal(sa, sb) {
 				return vt.Failf(prop+"/replicas-differ", i, "replicas that applied the same updates differ: %s vs %s", sa, sb)
 			}
+			if f := saveLate(i); f != nil {
+				return f
+			}
+			if pendCtx, err = d.PrepareSnapshot(); err != nil {
+				return vt.Failf(prop+"/snapshot-error", i, "prepare: %v", err)
+			}
+			pendExpect, pendUpdates = map[string]kv.Pair{}, 0
+			_ = json.Unmarshal(sa, &pendExpect)
 			// restore into a fresh store, which then replaces replica A
 			n := newLFSM()
 			if err := n.RecoverFromSnapshot(bytes.NewReader(sa), nil, nil); err != nil {
@@ -349,6 +398,12 @@ func run(c Case, o *vt.Obs) *vt.Failure {
 	}
 	if f := flushB(); f != nil {
 		return f
+	}
+	if f := saveLate(len(c.Ops)); f != nil {
+		return f
+	}
+	if lateSaves > 0 {
+		o.Label("snapshot-saved-after-further-updates")
 	}
 	if len(resultsA) != len(resultsB) {
 		return vt.Failf(prop+"/replicas-differ", len(c.Ops), "result counts differ")
